@@ -2,7 +2,8 @@
 
 Real `threading.Thread`s are serialised by a baton (one semaphore per thread): exactly one controlled thread
 runs at any time.  A *scheduling point* is the `call` event (sys.settrace) of a function selected by a point
-filter, plus every acquire/release of a cooperative lock that replaces the library's real locks.  At each
+filter, plus every acquire/release of a cooperative lock that replaces the library's real locks; a filter label
+starting with 'LINE:' additionally makes every source line of that function body a point.  At each
 point the scheduler takes the choice dictated by the schedule prefix, else choice 0 = keep running the
 current thread.  Iterative context bounding: after the default schedule, every point whose number of
 preemptions stays within the bound is branched to every other enabled thread.  Switching away from a thread
@@ -174,11 +175,19 @@ class Execution:
     def _trace(self, tid):
         is_point = self.is_point
 
+        def line_tracer(frame, event, arg):
+            # line-granularity points inside a designated function body (labels starting with 'LINE:')
+            if event == 'line':
+                self.point(tid, 'line:%s:%d' % (frame.f_code.co_name, frame.f_lineno))
+            return line_tracer
+
         def tracer(frame, event, arg):
             if event == 'call':
                 lab = is_point(frame)
                 if lab:
                     self.point(tid, lab)
+                    if lab.startswith('LINE:'):
+                        return line_tracer
             return None
         return tracer
 
